@@ -3,7 +3,8 @@
 Engine A (DESIGN.md section 5, C13): same harness as C12 (llharness/src/ty_laws.rs) with the nominality assertions: a value of a
 distinct type or a named struct (root constructor) is never implicitly accepted (`can_fit_into`) where a nominal type
 with another uid, or the distinct's own underlying type, is expected; casts between a distinct and its underlying
-type are accepted in both directions. Variants of two enums with identical payloads are covered by harness_variants
+type are accepted in both directions; no binary operator has an output type for a nominal operand together with another
+nominal type or its own strongly typed underlying type (either operand order; untyped literals excepted). Variants of two enums with identical payloads are covered by harness_variants
 (through the real ENUM_MAP). Value preservation of distinct casts is decided on the generated code by an Engine-B
 obligation (identity for all values).
 """
@@ -16,7 +17,7 @@ from engine.llsym import State, is_sym
 from engine.clifsym import Engine as ClifEngine, State as ClifState
 
 LEVEL = 'model_checking'
-MASK = 32 | 64
+MASK = 32 | 64 | 128
 
 
 def variants_part(chk, mod, so):
